@@ -30,7 +30,7 @@ def cases(tier, seed, prop):
     out = [{'s': s, 'g': 'exh'} for s in gens.all_strings(gens.EXTRACT_ALPHA, L)]
     n = 2500 if tier == 'quick' else 40000
     out += [{'s': s, 'g': 'frag'} for s in gens.random_strings(rnd, FR, n, 1, 8)]
-    m = 2500 if tier == 'quick' else 40000
+    m = 7000 if tier == 'quick' else 40000
     k = 0
     while k < m:
         css = rnd.random() < .15
